@@ -343,6 +343,27 @@ def probe_mle_init_singular(ctx, field):
         ctx.case({"probe": "mle-init-singular", "fact": fact})
 
 
+def prior_constructor_reuse(ctx):
+    """prior constructors do not change their arguments: the same Python list of Taylor coefficients handed to a constructor
+    twice (with appended diffuse derivatives) gives the same prior twice and keeps its length (seeded change C02-s12: the
+    diffuse derivatives were appended to the caller's list in place)"""
+    import jax.numpy as jnp
+    from probdiffeq import probdiffeq as pdq
+
+    for fact, mk in (("dense", pdq.state_space_model_dense), ("iso", pdq.state_space_model_isotropic), ("bd", pdq.state_space_model_blockdiag)):
+        ssm = mk()
+        tcoeffs = [jnp.asarray([0.5, -0.25]), jnp.asarray([1.0, 0.125]), jnp.asarray([0.0, 2.0])]
+        shapes = []
+        for _ in range(2):
+            prior = ssm.prior_wiener_integrated(tcoeffs, diffuse_derivatives=2)
+            shapes.append((len(tcoeffs), tuple(np.asarray(prior.init.mean_flat).shape)))
+        case = {"fact": fact, "constructor": "prior_wiener_integrated(list, diffuse_derivatives=2) called twice with the same list", "observed (len(list), mean shape)": shapes}
+        ctx.case(case)
+        ctx.count("constructor-reuse")
+        if shapes[0] != shapes[1] or shapes[0][0] != 3:
+            ctx.violation(f"prior-constructor:mutates-argument:{fact}", f"the prior constructor changed the caller's coefficient list or gives a different prior on the second call: {shapes}", case)
+
+
 def run(ctx):
     import jax
 
@@ -376,6 +397,7 @@ def run(ctx):
         refine_steps(ctx, cfg, 2, cf, [np.array([0.5, -0.25])], 0.25, [0.125, 0.046875], sigp="step")
         ctx.count("corpus-config")
     probe_mle_init_singular(ctx, cf)
+    prior_constructor_reuse(ctx)
     n = ctx.n(14, 240)
     for it in range(n):
         core.release_jax(8)
